@@ -338,6 +338,45 @@ def own_box_probe(ctx, rng, problems):
             problems.append((f"insert_transform (transform with its own bounding box): bounding box {box} != reference {want_box}", [str(rec)]))
 
 
+def rejected_transform_probe(ctx, rng, problems):
+    """an edit given something that is not a transform (or a transform with the wrong number of inputs) is rejected and leaves frames,
+    frame attributes, evaluation and bounding box exactly as they were — for every edit method and position"""
+    from astropy.modeling import models
+    from gwcs import wcs, coordinate_frames as cf
+    bads = [("a string", "not a model"), ("a number", 3.0), ("a 1-input model", models.Shift(1.0))]
+    for name, bad in bads:
+        for which in ("set_transform", "insert_transform-before", "insert_transform-after", "insert_frame-after-existing", "insert_frame-before-existing"):
+            frames = [cf.Frame2D(name="detector"), cf.Frame2D(name="focal"), cf.Frame2D(name="sky")]
+            w = wcs.WCS([(frames[0], models.Shift(1) & models.Shift(2)), (frames[1], models.Scale(2) & models.Scale(5)), (frames[2], None)])
+            w.bounding_box = ((0, 100), (0, 50))
+            new = cf.Frame2D(name="new")
+            before = (list(w.available_frames), bbox_of(w), [float(v) for v in w(3.0, 4.0)], [getattr(w, f.name, None) is f for f in frames])
+            rec = dict(edit=which, transform=name)
+            ctx.case(key=("reject", which, name), nontrivial=True, kind="rejected-transform", sample=rec)
+            try:
+                if which == "set_transform":
+                    w.set_transform("focal", "sky", bad)
+                elif which.startswith("insert_transform"):
+                    w.insert_transform("focal", bad, after=which.endswith("after"))
+                elif which == "insert_frame-after-existing":
+                    w.insert_frame("focal", bad, new)
+                else:
+                    w.insert_frame(new, bad, "focal")
+                accepted = True
+            except Exception:  # noqa
+                accepted = False
+            try:
+                after = (list(w.available_frames), bbox_of(w), [float(v) for v in w(3.0, 4.0)], [getattr(w, f.name, None) is f for f in frames])
+            except Exception as e:  # noqa
+                after = ("evaluation raised " + type(e).__name__,)
+            if accepted and name != "a 1-input model":
+                problems.append((f"{which} accepted {name} as a transform", [str(rec)]))
+            elif not accepted and after != before:
+                problems.append((f"{which} rejected {name} but changed the WCS: frames / box / w(3, 4) / attributes {before} -> {after}", [str(rec)]))
+            elif not accepted and getattr(w, "new", None) is not None:
+                problems.append((f"{which} rejected {name} but registered the new frame as an attribute", [str(rec)]))
+
+
 def run(ctx):
     from py2coq import gen_pipeline as G, t2
     from lib.common import REPO
@@ -368,6 +407,7 @@ def run(ctx):
                  sample={"dim": n, "ops": desc[:6]})
         allprob += problems[:1]
     own_box_probe(ctx, rng, allprob)
+    rejected_transform_probe(ctx, rng, allprob)
     checker = "(fun c => match c with (w, tab, n, x, ops) => match run_check tab n w x ops 0 with None => true | Some _ => false end end)"
     failing = ctx.coq_failing("cases", HEADER, terms, checker, shard=60, label="WC01") if gen_src is not None else None
     ctx.oblige("correspondence: regenerated edit methods (vm_compute) reproduce status/frames/objects/box/evaluation after every op",
